@@ -869,5 +869,58 @@ theorem specOk_minVal [DecidableEq V] (own : List α) (ls : List (Link α F)) (o
             rw [hto, ← hmap, ← heq] at this
             exact this
 
+/-! ### more fuel changes nothing -/
+
+theorem discoverFuel_stable {ls : List (Link α F)} {s : DState α F}
+    (h : findStep s.depth ls = none) (k : Nat) : discoverFuel k ls s = s := by
+  cases k with
+  | zero => rfl
+  | succ k => simp [discoverFuel, h]
+
+theorem discoverFuel_add (ls : List (Link α F)) (n k : Nat) :
+    ∀ s : DState α F, discoverFuel (n + k) ls s = discoverFuel k ls (discoverFuel n ls s) := by
+  induction n with
+  | zero => intro s; simp [discoverFuel]
+  | succ n ih =>
+    intro s
+    rw [Nat.add_right_comm]
+    cases hf : findStep s.depth ls with
+    | none =>
+      rw [discoverFuel_stable hf, discoverFuel_stable hf, discoverFuel_stable hf]
+    | some p =>
+      obtain ⟨l, c⟩ := p
+      simp only [discoverFuel, hf]
+      exact ih _
+
+/-- keys of the installed dict = reached cids that are not own -/
+theorem fix_via_isSome {own : List α} {ls : List (Link α F)} {s : DState α F} (hF : Fix own ls s)
+    (c : α) : (get s.via c).isSome = true ↔ ((get s.depth c).isSome = true ∧ c ∉ own) := by
+  constructor
+  · intro h
+    have hno : c ∉ own := by
+      intro ho; rw [hF.inv.ownVia c ho] at h; cases h
+    cases hd : get s.depth c with
+    | none => rw [hF.inv.viaNone c hd] at h; cases h
+    | some d => exact ⟨rfl, hno⟩
+  · rintro ⟨h, hno⟩
+    cases hd : get s.depth c with
+    | none => rw [hd] at h; cases h
+    | some d =>
+      obtain ⟨l, m, hv, _⟩ := hF.inv.via c d hd hno
+      simp [hv]
+
+/-- readable exactly when reachable -/
+theorem fix_installed_isSome {own : List α} {ls : List (Link α F)} {s : DState α F}
+    (hF : Fix own ls s) (ownVal : α → V) (app : F → List V → V) (N : Nat)
+    (hN : ∀ c d, get s.depth c = some d → d + 1 ≤ N) (c : α) :
+    (evalC own ownVal app s.via N c).isSome = true ↔ Reachable own ls c := by
+  rw [← fix_reachable hF c]
+  cases hd : get s.depth c with
+  | none => simp [fix_out_none hF ownVal app N hd]
+  | some d =>
+    obtain ⟨v, hv⟩ := fix_eval hF ownVal app d c hd
+    have := evalC_mono_le own ownVal app s.via (hN c d hd) c v hv
+    simp [this]
+
 end
 end GlueVerif.Lemmas.C03
